@@ -40,3 +40,105 @@ macro_rules
         set, MonadStateOf.set, EStateM.set, modify, modifyGet, MonadStateOf.modifyGet,
         EStateM.modifyGet, throw, throwThe, MonadExceptOf.throw, EStateM.throw, Cfdp.ite_run,
         Cfdp.dite_run, $ls,*] at $h:ident)
+
+namespace Cfdp
+
+/-- result state of a model call, whether it returned or raised -/
+def stateOf {ε σ α : Type} : EStateM.Result ε σ α → σ
+  | .ok _ s => s
+  | .error _ s => s
+
+@[simp] theorem stateOf_ok {ε σ α : Type} (a : α) (s : σ) :
+    stateOf (EStateM.Result.ok a s : EStateM.Result ε σ α) = s := rfl
+@[simp] theorem stateOf_error {ε σ α : Type} (e : ε) (s : σ) :
+    stateOf (EStateM.Result.error e s : EStateM.Result ε σ α) = s := rfl
+
+/-- a program that never changes the state (whether it returns or raises) -/
+def ReadOnly {ε σ α : Type} (x : EStateM ε σ α) : Prop := ∀ s, stateOf (x s) = s
+
+theorem ReadOnly.pure {ε σ α : Type} (a : α) : ReadOnly (pure a : EStateM ε σ α) := fun _ => rfl
+theorem ReadOnly.throw {ε σ α : Type} (e : ε) : ReadOnly (throw e : EStateM ε σ α) := fun _ => rfl
+theorem ReadOnly.get {ε σ : Type} : ReadOnly (get : EStateM ε σ σ) := fun _ => rfl
+theorem ReadOnly.bind {ε σ α β : Type} {x : EStateM ε σ α} {f : α → EStateM ε σ β}
+    (hx : ReadOnly x) (hf : ∀ a, ReadOnly (f a)) : ReadOnly (x >>= f) := by
+  intro s
+  have h1 := hx s
+  show stateOf (EStateM.bind x f s) = s
+  unfold EStateM.bind
+  cases h : x s with
+  | ok a s' =>
+    rw [h] at h1; simp at h1; subst h1
+    exact hf a s'
+  | error e s' =>
+    rw [h] at h1; simp at h1; subst h1
+    rfl
+theorem ReadOnly.ite {ε σ α : Type} {c : Prop} [Decidable c] {x y : EStateM ε σ α}
+    (hx : ReadOnly x) (hy : ReadOnly y) : ReadOnly (if c then x else y) := by
+  split <;> assumption
+
+/-- a read-only program that fails leaves the state it was started in -/
+theorem ReadOnly.error_state {ε σ α : Type} {x : EStateM ε σ α} (h : ReadOnly x) {s s' : σ} {e : ε}
+    (hx : x s = .error e s') : s' = s := by
+  have := h s; rw [hx] at this; exact this
+
+theorem ReadOnly.ok_state {ε σ α : Type} {x : EStateM ε σ α} (h : ReadOnly x) {s s' : σ} {a : α}
+    (hx : x s = .ok a s') : s' = s := by
+  have := h s; rw [hx] at this; exact this
+
+end Cfdp
+
+namespace Cfdp
+
+/-- `x` preserves the state predicate `P`, whether it returns or raises -/
+def Preserves {ε σ α : Type} (P : σ → Prop) (x : EStateM ε σ α) : Prop :=
+  ∀ s, P s → P (stateOf (x s))
+
+theorem Preserves.pure {ε σ α : Type} {P : σ → Prop} (a : α) : Preserves P (pure a : EStateM ε σ α) :=
+  fun _ h => h
+theorem Preserves.throw {ε σ α : Type} {P : σ → Prop} (e : ε) :
+    Preserves P (throw e : EStateM ε σ α) := fun _ h => h
+theorem Preserves.get {ε σ : Type} {P : σ → Prop} : Preserves P (get : EStateM ε σ σ) := fun _ h => h
+theorem Preserves.of_readOnly {ε σ α : Type} {P : σ → Prop} {x : EStateM ε σ α} (h : ReadOnly x) :
+    Preserves P x := fun s hp => by rw [h s]; exact hp
+theorem Preserves.bind {ε σ α β : Type} {P : σ → Prop} {x : EStateM ε σ α} {f : α → EStateM ε σ β}
+    (hx : Preserves P x) (hf : ∀ a, Preserves P (f a)) : Preserves P (x >>= f) := by
+  intro s hp
+  have h1 := hx s hp
+  show P (stateOf (EStateM.bind x f s))
+  unfold EStateM.bind
+  cases h : x s with
+  | ok a s' => rw [h] at h1; exact hf a s' h1
+  | error e s' => rw [h] at h1; exact h1
+theorem Preserves.ite {ε σ α : Type} {P : σ → Prop} {c : Prop} [Decidable c] {x y : EStateM ε σ α}
+    (hx : c → Preserves P x) (hy : ¬c → Preserves P y) : Preserves P (if c then x else y) := by
+  split
+  · exact hx ‹_›
+  · exact hy ‹_›
+theorem Preserves.modify {ε σ : Type} {P : σ → Prop} {f : σ → σ} (h : ∀ s, P s → P (f s)) :
+    Preserves P (modify f : EStateM ε σ Unit) := fun s hp => h s hp
+theorem Preserves.set_of_get {ε σ : Type} {P : σ → Prop} (s' : σ) (h : P s') :
+    Preserves P (set s' : EStateM ε σ Unit) := fun _ _ => h
+end Cfdp
+
+/-- discharge `ReadOnly prog` for programs made of `get`, `pure`, `throw`, `if`, `match`, `>>=` -/
+macro "read_only" : tactic =>
+  `(tactic| ((try dsimp only); repeat' (first
+      | exact Cfdp.ReadOnly.pure _ | exact Cfdp.ReadOnly.throw _ | exact Cfdp.ReadOnly.get
+      | refine Cfdp.ReadOnly.bind ?_ (fun _ => ?_) | apply Cfdp.ReadOnly.ite | split)))
+
+/-- reduce `Preserves P prog` to the obligations at the state-changing primitives -/
+macro "preserves_step" : tactic =>
+  `(tactic| with_reducible first
+      | exact Cfdp.Preserves.pure _ | exact Cfdp.Preserves.throw _ | exact Cfdp.Preserves.get
+      | refine Cfdp.Preserves.bind ?_ (fun _ => ?_)
+      | refine Cfdp.Preserves.ite (fun _ => ?_) (fun _ => ?_)
+      | split)
+
+/-- `preserves_with [callee lemmas]`: decompose `Preserves P prog` along bind / if / match, closing
+calls by the given lemmas; obligations at `modify` are left as goals `P s → P (f s)` -/
+syntax "preserves_with" " [" term,* "]" : tactic
+macro_rules
+  | `(tactic| preserves_with [$ls,*]) => do
+    let base ← `(tactic| first | preserves_step | refine Cfdp.Preserves.modify (fun _ _ => ?_))
+    let step ← ls.getElems.foldrM (fun l acc => `(tactic| first | (with_reducible apply $l; done) | ($acc:tactic))) base
+    `(tactic| ((try dsimp only); repeat' ($step:tactic)))
